@@ -13,3 +13,26 @@ Theorem C12_shortcuts_agree :
     R1 = R2.
 Proof. exact (fun G names U WF => shortcuts_agree G names U WF (fun _ _ => True)). Qed.
 Print Assumptions C12_shortcuts_agree.
+
+(** the precomputed steady-state set is the meaning of  !{x}: AX {x}  (any variable name
+    with a spare copy) *)
+Theorem C12_steady_shortcut :
+  forall (G : genv) (names : list str) (U : tt), wf_env G names U ->
+  forall (Gamma : str -> val -> Prop) x e, var_of G x = Some e -> e < g_k G ->
+    spec_of G U (steady_of G U) (sat G names Gamma (Hybrid Bind x None (Unary AX (Terminal (AVar x))))).
+Proof. intros G names U [? ? ? ? ? ? ? ? ? ?]; intros; eapply steady_pattern_spec; eauto. Qed.
+Print Assumptions C12_steady_shortcut.
+
+(** the attractor shortcut is modelled by its specification (bottom SCCs = meaning of
+    !{x}: AG EF {x}); what the model returns for it denotes that formula *)
+Theorem C12_attractor_shortcut :
+  forall (G : genv) (names : list str) (U : tt), wf_env G names U ->
+  forall (Gamma : str -> val -> Prop) x e R, var_of G x = Some e -> e < g_k G ->
+    attractors G U e = Ok R ->
+    spec_of G U R (sat G names Gamma (Hybrid Bind x None (Unary AG (Unary EF (Terminal (AVar x)))))).
+Proof. intros G names U [? ? ? ? ? ? ? ? ? ?]; intros; eapply attractor_pattern_spec; eauto. Qed.
+Print Assumptions C12_attractor_shortcut.
+
+(** with wild-cards and domains: [eval_node] = the cache-free extended evaluator whatever the
+    switches (C02), whose result denotes [sat] -- so near misses and patterns inside restricted
+    scopes get the result of their own semantics *)
